@@ -199,8 +199,19 @@ pub fn ring_world(r: &mut Rng, tier: Tier, o: &RingOpts) -> (WorldCfg, OracleCfg
         _ => r.range((n as u64 + 1).max(2), u64::from(o.max_hsa)) as u8,
     };
     let n = n.min(usize::from(hsa));
-    let addrs = pick_addresses(r, n, hsa);
+    let mut addrs = pick_addresses(r, n, hsa);
     let n = addrs.len();
+    // The same pattern moved to the top of the address space (HSA = 126, a station at 125 when the
+    // pattern has one at HSA-1): the 8-bit and 16-bit ends of the time-out arithmetic.
+    let hsa = if r.chance(1, 10) {
+        let off = 126 - hsa;
+        for a in addrs.iter_mut() {
+            *a += off;
+        }
+        126
+    } else {
+        hsa
+    };
     let gap_common = r.range(1, u64::from(o.max_gap)) as u8;
     let tslot_us = bit_us(baud, u64::from(slot_bits)).max(1);
 
@@ -276,11 +287,23 @@ pub fn ring_world(r: &mut Rng, tier: Tier, o: &RingOpts) -> (WorldCfg, OracleCfg
     }
     // graceful leaves before the quiet point
     let mut leave_times: Vec<Option<u64>> = vec![None; n];
-    if o.leaves && n >= 3 && r.chance(1, 3) {
+    let mut rejoin_times: Vec<Option<u64>> = vec![None; n];
+    if o.leaves && n >= 2 && r.chance(1, 3) {
         let k = r.below(n as u64) as usize;
         let t = quiet_from.max((8 + 2 * a_max) * tslot_us) + r.range(5, 60) * rot_us;
         leave_times[k] = Some(t);
         quiet_from = t;
+        // ... and possibly comes back (the same station object: set_offline() then set_online()),
+        // sooner or later than the others need to notice that it was gone
+        if n == 2 || r.chance(1, 2) {
+            let back = t + match r.below(3) {
+                0 => r.range(1, 30) * tslot_us,
+                1 => r.range(1, 20 + 4 * a_max) * tslot_us,
+                _ => r.range(1, 30) * rot_us,
+            };
+            rejoin_times[k] = Some(back);
+            quiet_from = back;
+        }
     }
 
     let mut stations = Vec::new();
@@ -319,6 +342,9 @@ pub fn ring_world(r: &mut Rng, tier: Tier, o: &RingOpts) -> (WorldCfg, OracleCfg
         let mut plan = vec![(join_times[i], PlanOp::Online)];
         if let Some(t) = leave_times[i] {
             plan.push((t, PlanOp::Offline));
+        }
+        if let Some(t) = rejoin_times[i] {
+            plan.push((t, PlanOp::Online));
         }
         let single_poll_api = r.chance(1, 2);
         stations.push(StationCfg {
@@ -1456,7 +1482,7 @@ pub fn generate(check: &str, tier: Tier, base_seed: u64, k: u64) -> Scenario {
                 apps: true,
                 responders: true,
                 staged_joins: true,
-                leaves: false,
+                leaves: true,
                 buggify: true,
                 skew: true,
                 extra_rotations: 30,
